@@ -44,7 +44,9 @@ def run(ctx, which):
             if not any(pb for (_l, _s, pb) in loops_):
                 raise FX.Broken(f"selftest: hash-order detector silent on fixtures::{name}")
         loops_, chains_ = c17.hash_order_audit(F, F.fn("collected_in_hash_order"))
-        if not any(not okc for (*_x, okc) in chains_):
+        # `m.keys().copied().collect()` is seen either as a chain ending in an order-sensitive consumer or, after the pipeline
+        # desugaring, as a hash-ordered loop pushing into a Vec
+        if not any(not okc for (*_x, okc) in chains_) and not any(pb for (_l, _s, pb) in loops_):
             raise FX.Broken("selftest: hash-order chain detector silent on fixtures::collected_in_hash_order")
         res["hash-order"] = "3 positive examples fire"
     if "str-guard" in which:
